@@ -586,7 +586,14 @@ fn pdelay_resp_case(two_step: bool) {
         want.n_filter_demobilize += 1;
         want.filter = post.filter;
         assert!(post.filter.n_meas == 0 && post.filter.serial != pre.filter.serial);
-        assert!(post.peer == pre.peer);
+        // the later response's timestamps are not stored, and the doubly answered exchange is over: no later
+        // message with this sequence id may complete it (C14: FAULTY is left only after an exchange answered
+        // by exactly one responder). An exchange that had already produced its measurement stays recorded.
+        want.peer = match pre.peer {
+            PeerDelayState::Measuring { .. } => PeerDelayState::Empty,
+            other => other,
+        };
+        assert!(post.peer == want.peer);
         assert!(post == want && actions.n == 0);
     } else {
         check_against_spec(&pre, want, meas, &post, &actions);
@@ -665,7 +672,14 @@ fn c14_pdelay_resp_follow_up() {
         want.n_filter_demobilize += 1;
         want.filter = post.filter;
         assert!(post.filter.n_meas == 0 && post.filter.serial != pre.filter.serial);
-        assert!(post.peer == pre.peer);
+        // the later response's timestamps are not stored, and the doubly answered exchange is over: no later
+        // message with this sequence id may complete it (C14: FAULTY is left only after an exchange answered
+        // by exactly one responder). An exchange that had already produced its measurement stays recorded.
+        want.peer = match pre.peer {
+            PeerDelayState::Measuring { .. } => PeerDelayState::Empty,
+            other => other,
+        };
+        assert!(post.peer == want.peer);
         assert!(post == want && actions.n == 0);
     } else {
         check_against_spec(&pre, want, meas, &post, &actions);
